@@ -69,6 +69,9 @@ type Case struct {
 	ByKey   []bool  `json:"by_key"`
 	Start   int     `json:"key_start"`
 	Faults  []Fault `json:"faults"`
+	// Denied lists batch positions whose request the slashing rule legitimately refuses (the key
+	// signed the same target just before): mixed verdicts next to a fault.
+	Denied []int `json:"denied,omitempty"`
 }
 
 // Sites lists every fault site with the request kinds it applies to.
@@ -281,6 +284,23 @@ func execute(c *Case, withFaults bool) (*result, []reqData, []*vkit.AccountInfo,
 	}
 	defer st.Close()
 
+	// positions that the rule itself will refuse: the key signs the same target first, fault-free
+	if c.Kind == "attest" || c.Kind == "attests" {
+		plan.Disabled = true
+		for _, pos := range c.Denied {
+			if pos < 0 || pos >= c.N || data[pos].att == nil || len(data[pos].att.Domain) != 32 {
+				continue
+			}
+			pre := *data[pos].att
+			pre.BlockRoot = rootOf(uint64(pos)+100, 9)
+			if r := st.Attest(client, "", vkit.TargetOf(accs[pos], false), false, &pre); !r.OK() {
+				// locked accounts and the like: the position is refused for another reason anyway
+				continue
+			}
+		}
+		plan.Disabled = false
+	}
+
 	var hookMu sync.Mutex
 	verifhook.Set(func(ev verifhook.Event) error {
 		hookMu.Lock()
@@ -484,6 +504,9 @@ func record(c *Case, o *outcome) {
 	if len(c.Faults) > 1 {
 		vkit.S.Class("multi-fault-plan")
 	}
+	if len(c.Denied) > 0 {
+		vkit.S.Class("batch-with-rule-denied-positions")
+	}
 	vkit.S.Sample(map[string]any{"case": c, "fired": o.fired, "states": o.states}, o.firedOnSigned > 0 && c.N > 2)
 }
 
@@ -517,6 +540,12 @@ func EnumCases() []*Case {
 					for _, grpc := range []bool{false, true} {
 						out = append(out, &Case{Kind: kind, ViaGRPC: grpc, N: n, ByKey: []bool{false, true, false}, Start: 3, Faults: []Fault{{Site: s.Site, Pos: pos, Mode: mode}}})
 					}
+					if kind == "attests" {
+						// the same fault next to positions the rule refuses, before and after approved ones
+						for _, denied := range [][]int{{0}, {1, 3}, {4}} {
+							out = append(out, &Case{Kind: kind, N: n, ByKey: []bool{false, true, false}, Start: 3, Denied: denied, Faults: []Fault{{Site: s.Site, Pos: pos, Mode: mode}}})
+						}
+					}
 				}
 			}
 		}
@@ -540,7 +569,7 @@ func TestC06Enum(t *testing.T) {
 			t.Fatalf("INFRA: %v", err)
 		}
 		record(c, o)
-		if len(o.fired) == 0 {
+		if len(o.fired) == 0 && len(c.Denied) == 0 {
 			t.Fatalf("INFRA: enumerated fault never fired: %+v", c)
 		}
 		vkit.Report(t, "C06", "TestC06Random", c, v)
@@ -575,6 +604,13 @@ func TestC06Random(t *testing.T) {
 		}
 		if c.Kind == "multisign" || c.Kind == "attests" {
 			c.N = rapid.IntRange(1, 20).Draw(rt, "n")
+		}
+		if c.Kind == "attests" && rapid.Bool().Draw(rt, "mixed_verdicts") {
+			for i := 0; i < c.N; i++ {
+				if rapid.IntRange(0, 2).Draw(rt, "denied") == 0 {
+					c.Denied = append(c.Denied, i)
+				}
+			}
 		}
 		nf := rapid.IntRange(0, 4).Draw(rt, "nfaults")
 		for i := 0; i < nf; i++ {
